@@ -9,7 +9,7 @@ variable {P : Type}
 
 /-- Full window, sound table, any cancellation: the table stays sound; a search that is live at its end
     returns exactly `V` with a principal variation. -/
-theorem alphabeta_tt_full {g : Game P} (hev : EvalOk g) (ex : Explore) (le : LeafEval) {rootPly : Int}
+theorem alphabeta_tt_full {g : Game P} (hev : EvalOk g) (ex : P → Explore) (le : LeafEval P) {rootPly : Int}
     {R U : Nat → P → Prop} (hcl : Closed g ex R) (hRU : ∀ n q, R n q → U n q)
     (hrf : RootFreeOn g R rootPly) (hh : HashOKOn g ex le U) (d : Nat) (hd : leafGrade le + d ≤ 127)
     (p : P) (hp : R d p) (st : SState) (hs : SoundOn g ex le U st.tt) :
@@ -32,7 +32,7 @@ theorem alphabeta_tt_full {g : Game P} (hev : EvalOk g) (ex : Explore) (le : Lea
   exact ⟨hex, q4.2 hex⟩
 
 /-- At the root ply, with a legal move, an empty PV means alpha was never raised. -/
-theorem alphabeta_root_pv {g : Game P} (hev : EvalOk g) (ex : Explore) (le : LeafEval) {rootPly : Int}
+theorem alphabeta_root_pv {g : Game P} (hev : EvalOk g) (ex : P → Explore) (le : LeafEval P) {rootPly : Int}
     {R U : Nat → P → Prop} (hcl : Closed g ex R) (hRU : ∀ n q, R n q → U n q)
     (hrf : RootFreeOn g R rootPly) (hh : HashOKOn g ex le U) (K : Nat) (hK : leafGrade le ≤ K) (d : Nat)
     (hKd : K + d + 1 ≤ 127) (p : P) (hp : R (d + 1) p) (a b : Score) (st : SState) (hs : SoundOn g ex le U st.tt)
@@ -58,7 +58,7 @@ theorem alphabeta_root_pv {g : Game P} (hev : EvalOk g) (ex : Explore) (le : Lea
     exact (h3 hlive).2.2.2.2 hl hnil
 
 /-- `AlphaBeta.Search` without a window in the context, over a sound table, with any cancellation. -/
-theorem alphaBetaSearch_tt {g : Game P} (hev : EvalOk g) (ex : Explore) (le : LeafEval)
+theorem alphaBetaSearch_tt {g : Game P} (hev : EvalOk g) (ex : P → Explore) (le : LeafEval P)
     {R U : Nat → P → Prop} (hcl : Closed g ex R) (hRU : ∀ n q, R n q → U n q)
     (hh : HashOKOn g ex le U) (p : P) (hrf : RootFreeOn g R (g.ply p)) (d : Nat) (hd : leafGrade le + d ≤ 127)
     (hp : R d p) (st : SState) (hs : SoundOn g ex le U st.tt) :
@@ -109,14 +109,14 @@ theorem alphaBetaSearch_tt {g : Game P} (hev : EvalOk g) (ex : Explore) (le : Le
     exact hne this
 
 /-- The final state of `alphaBetaSearch` is one poll after the final state of `alphabeta`. -/
-theorem alphaBetaSearch_state (g : Game P) (ex : Explore) (le : LeafEval) (p : P) (d : Nat) (st : SState) :
+theorem alphaBetaSearch_state (g : Game P) (ex : P → Explore) (le : LeafEval P) (p : P) (d : Nat) (st : SState) :
     (alphaBetaSearch g ex le p d invalidScore invalidScore st).2 =
       tick (alphabeta g ex le (g.ply p) d p negInfScore infScore { st with nodes := 0 }).2.2 := by
   simp only [alphaBetaSearch, isInvalid, invalidScore, decide_true, if_true, poll_eq]
   split <;> rfl
 
 /-- A sequence of searches (root position and depth vary) threading the state, hence the table. -/
-def searchSeq (g : Game P) (ex : Explore) (le : LeafEval) :
+def searchSeq (g : Game P) (ex : P → Explore) (le : LeafEval P) :
     List (P × Nat) → SState → List (Option SearchResult) × SState
   | [], st => ([], st)
   | (p, d) :: rest, st =>
@@ -126,7 +126,7 @@ def searchSeq (g : Game P) (ex : Explore) (le : LeafEval) :
 
 /-- A sequence of searches over one table: `U` is the region the table is sound on (it contains the tree of
     every search of the sequence); the root-ply condition is needed on each search's own tree only. -/
-theorem searchSeq_tt {g : Game P} (hev : EvalOk g) (ex : Explore) (le : LeafEval) {U : Nat → P → Prop}
+theorem searchSeq_tt {g : Game P} (hev : EvalOk g) (ex : P → Explore) (le : LeafEval P) {U : Nat → P → Prop}
     (hh : HashOKOn g ex le U) :
     ∀ (l : List (P × Nat)) (st : SState), SoundOn g ex le U st.tt → st.cancelAt = none →
       (∀ pd ∈ l, (∀ n q, Tree g ex pd.1 pd.2 n q → U n q) ∧
